@@ -170,7 +170,7 @@ def c08(pid, tier, seed):
     for m, lead in leads:
         hit = [r for r in runs if r.get("lead") and r["program"] == m["name"] and r["h"] in failed_h]
         lead_notes.append({"program": m["name"], "model_invariant": lead["invariant"], "reproduced_on_code": bool(hit)})
-    if st.get("runs", 0) == 0 or st.get("joins", 0) == 0 or st.get("ticks", 0) == 0:
+    if (st.get("runs", 0) == 0 or st.get("joins", 0) == 0 or st.get("ticks", 0) == 0) and not fails:
         raise vlib.ToolError("vacuous run: %s" % st)
     conf = conformance(pid, models, runs)
     fails.sort(key=lambda x: x["n"])
@@ -268,7 +268,7 @@ def final_state_clause(pid, tier, seed, families):
                   what="rule=%s program=%s (concurrent calls, final state)" % (v["rule"], byh[v["h"]]["program"]),
                   replay={"driver": "sync", "monitor": "Trace_Linear", "rule": v["rule"], "expected_lines": ["".join(chr(c) if 32 <= c < 127 else "<%d>" % c for c in l) for l in v.get("exp", [])],
                           "history": byh[v["h"]]}) for v in bad]
-    if st.get("runs", 0) == 0 or st.get("switched", 0) == 0 or st.get("paints", 0) == 0:
+    if (st.get("runs", 0) == 0 or st.get("switched", 0) == 0 or st.get("paints", 0) == 0) and not bad:
         raise vlib.ToolError("vacuous run of the final-state clause: %s" % st)
     return dict(states=states, transitions=trans, runs=len(runs), records=total, stats=st, fails=fails,
                 sample={"program": runs[len(runs) // 2]["program"], "threads": runs[len(runs) // 2]["threads"], "schedule": runs[len(runs) // 2]["schedule"]})
